@@ -352,9 +352,9 @@ theorem decompress_graceful_of_ne_zlib (L : Lib) (a : Algo) (ha : a ≠ .zlib) (
   | none => rfl
   | snappy => simp only [decompress]; repeat' split
               all_goals rfl
-  | lz4 => simp only [decompress]; repeat' split
+  | lz4 => simp only [decompress, decompressLz4]; repeat' split
            all_goals rfl
-  | lz4hc => simp only [decompress]; repeat' split
+  | lz4hc => simp only [decompress, decompressLz4]; repeat' split
              all_goals rfl
   | zstd => simp only [decompress]; repeat' split
             all_goals first | rfl | simp_all
